@@ -596,6 +596,31 @@ def main(tier):
             except Exception as ex:  # noqa: BLE001
                 chk.violation(dict(level="series", clause="series-raised", exc=type(ex).__name__), f"elasticity_components raised {ex!r} on a series of positive-definite orthorhombic tensors", dict(kind="same-contraction-series", shifts=fam, frame=frame))
 
+    # ---- a creeping series: consecutive members differ, but by less than any tolerance a "same as the previous one"
+    # shortcut would plausibly use (a slowly stiffening, slowly turning tensor along a near-stagnant stretch of a
+    # pathline).  Same law: a member inside the series reports what it reports alone.
+    P = np.zeros((6, 6))
+    P[0, 3] = P[3, 0] = 1.0; P[1, 4] = P[4, 1] = -2.0; P[2, 5] = P[5, 2] = 1.5; P[0, 4] = P[4, 0] = 0.5; P[3, 4] = P[4, 3] = -1.0
+    generic = base + 3.0 * P
+    length = 400 if tier == "quick" else 4000
+    for grow, turn in ((3e-8, 5e-10), (1e-9, 1e-8), (2e-12, 0.0), (0.0, 3e-7)):
+        mats = [generic * (1.0 + grow * k) + (turn * k) * 100.0 * P for k in range(length)]
+        try:
+            series = fn(np.array(mats))
+            for i in (0, 1, 2, 7, length // 2, length - 1):
+                alone = fn(np.array([mats[i]]))
+                chk.count(("creeping-series", grow, turn, i))
+                same = all(np.allclose(np.asarray(series[k][i], dtype=float), np.asarray(alone[k][0], dtype=float), rtol=1e-11, atol=1e-11, equal_nan=True) for k in KEYS if k != "hexagonal_axis")
+                a1, a2 = np.asarray(series["hexagonal_axis"][i], dtype=float), np.asarray(alone["hexagonal_axis"][0], dtype=float)
+                same = same and (np.allclose(a1, a2, atol=1e-11, equal_nan=True) or np.allclose(a1, -a2, atol=1e-11, equal_nan=True))
+                if not same:
+                    chk.violation(dict(level="series", clause="member-of-a-series-differs-from-itself-alone", neighbours="creeping"),
+                                  f"member {i} of a creeping series (relative growth {grow} and coupling drift {turn} per member) reports other moduli / percentages / axis than alone",
+                                  dict(kind="creeping-series", grow=grow, turn=turn, member=i, length=length))
+                    break
+        except Exception as ex:  # noqa: BLE001
+            chk.violation(dict(level="series", clause="series-raised", exc=type(ex).__name__), f"elasticity_components raised {ex!r} on a creeping series of positive-definite tensors", dict(kind="creeping-series", grow=grow, turn=turn))
+
     return chk.finish(
         rule="exact: every (library tensor, rotation) CASE emitted by Elastic.tla - 2 built-in tensors and the valid members of the "
         "small-integer orthorhombic family x 40 rotations with denominator <= 3, distinct by (t, r), non-trivial when r is not the identity; "
